@@ -282,6 +282,61 @@ def module_case(task):
     return out
 
 
+def dtype_case(task):
+    """Every function of (t, x, y, z) of the module gives the same values on
+    integer-typed coordinate arrays (what FiniteDifference builds from
+    integer grid parameters) as on the same coordinates typed float64."""
+    import inspect
+    name, ti = task
+    m = mod(name)
+    ioff = 4 if SPECS[name].get('offset') else 0
+    Xi, Yi, Zi = np.meshgrid(np.array([-2, -1, 1, 3]) + ioff,
+                             np.array([-3, -1, 2, 4]) + ioff,
+                             np.array([-2, 1, 2, 5]) + ioff, indexing='ij')
+    t = times_of(name)[ti]
+    tt = [(t, float(t))]
+    if SPECS[name]['times'] != 'cosmo':
+        tt.append((ti + 1, float(ti + 1)))          # integer time as well
+    out = {'task': [name, ti], 'bad': [], 'checks': 0, 'maxres': {}}
+    for fn, f in sorted(vars(m).items()):
+        if not callable(f) or fn.startswith('_'):
+            continue
+        try:
+            pars = list(inspect.signature(f).parameters)
+        except (TypeError, ValueError):
+            continue
+        if pars[:4] != ['t', 'x', 'y', 'z']:
+            continue
+        for t_i, t_f in tt:
+            try:
+                with quiet():
+                    vi = f(t_i, Xi, Yi, Zi)
+                    vf = f(t_f, Xi.astype(float), Yi.astype(float),
+                           Zi.astype(float))
+                if isinstance(vf, dict):
+                    keys = sorted(vf)
+                    vi = [vi[k] for k in keys]
+                    vf = [vf[k] for k in keys]
+                elif not isinstance(vf, (list, tuple)):
+                    vi, vf = [vi], [vf]
+                for a, b in zip(vi, vf):
+                    a, b = np.asarray(a, float), np.asarray(b, float)
+                    out['checks'] += 1
+                    sc = max(float(np.abs(b).max()), 1e-300)
+                    if a.shape != b.shape or not (
+                            np.abs(a - b).max() <= 1e-12 * sc):
+                        out['bad'].append(
+                            (f'{fn}:integer-typed-coordinates',
+                             f't={t_i!r}', float(np.abs(a - b).max() / sc)
+                             if a.shape == b.shape else 'shape'))
+                        break
+            except Exception:     # noqa: BLE001
+                import traceback
+                out['bad'].append((f'{fn}:integer-typed-coordinates:raised',
+                                   traceback.format_exc()[-300:]))
+    return out
+
+
 def icpert_case(task):
     """ICPertFLRW: first-order construction on EdS."""
     from aurel.core import AurelCore
@@ -347,6 +402,14 @@ def main(tier):
             run.violation(f"C17:{t[0]}:{b[0]}",
                           f"{t[0]} at t={times_of(t[0])[t[1]]:.4g}: {b}"
                           [:500], {'module': t[0], 'time_index': t[1]})
+    dres = runner.pmap(dtype_case, tasks)
+    for t, r in zip(tasks, dres):
+        run.seen(('dtype',) + t)
+        run.count('checks', r['checks'])
+        for b in r['bad']:
+            run.violation(f"C17:{t[0]}:{b[0]}",
+                          f"{t[0]} time index {t[1]}: {b}"[:500],
+                          {'module': t[0], 'time_index': t[1], 'dtype': 1})
     ic = runner.pmap(icpert_case, [(1.0,), (0.5,)], workers=2)
     for r in ic:
         for b in r['bad']:
@@ -383,7 +446,8 @@ def main(tier):
 def replay(rec):
     c = rec['case']
     if 'module' in c:
-        r = module_case((c['module'], c['time_index']))
+        fn = dtype_case if c.get('dtype') else module_case
+        r = fn((c['module'], c['time_index']))
         print(r)
         return 1 if r['bad'] else 0
     print(icpert_case((1.0,)))
